@@ -259,6 +259,28 @@ example :
     (outcome ["AB t120 @3 v12 [c(d)2]4 L p-1 _2 __-1 k3 %5"]).1 = none := by
   decide +kernel
 
+/-- a third pair with a reverse rest and a grace note (their side condition — the note before them
+is long enough — is part of `CmdsOk`): `AB c4 R8 ~d16 e` and `A c4|R8`, ` ~d16<tab>e` -/
+def exRevMulti : List LLine :=
+  [.hdr [.letter 0, .letter 1] 32
+    [.cmd (.note 2 .none (.len { v := 4 } 0)), .blank 32, .cmd (.revRest (.len { v := 8 } 0)), .blank 32,
+     .cmd (.grace 3 .none (.len { v := 16 } 0)), .blank 32, .cmd (.note 4 .none (.dflt 0))] []]
+
+def exRevSingle : List LLine :=
+  [.hdr [.letter 0] 32 [.cmd (.note 2 .none (.len { v := 4 } 0)), .bar, .cmd (.revRest (.len { v := 8 } 0))] [],
+   .cont 32 [.cmd (.grace 3 .none (.len { v := 16 } 0)), .blank 9, .cmd (.note 4 .none (.dflt 0))] []]
+
+example : exRevMulti.map LLine.text = [tx "AB c4 R8 ~d16 e"] ∧ exRevSingle.map LLine.text = [tx "A c4|R8", tx " ~d16\te"] ∧
+    layoutCmds exRevMulti = layoutCmds exRevSingle := by
+  refine ⟨by decide, by decide, rfl⟩
+
+example : LinesOk [0, 1] false exRevMulti ∧ LinesOk [0] false exRevSingle ∧
+    (∀ id ∈ [0, 1], CmdsOk (trackOf id MmlState.init).strip (layoutCmds exRevMulti)) := by
+  decide +kernel
+
+example : ((outcome ["AB c4 R8 ~d16 e"]).2.lookup 0) = ((outcome ["A c4|R8", " ~d16\te"]).2.lookup 0) ∧ (outcome ["AB c4 R8 ~d16 e"]).1 = none := by
+  decide +kernel
+
 /-! ## conditional blocks -/
 
 theorem setLb_self (s : MmlState) (b : LineBuffer) (h : s.inp.lb = b) : setLb s b = s := by
@@ -360,8 +382,9 @@ theorem C06_separator_suffices (t : Track) (cmd : Cmd) (hn : LCmdNums t cmd) (ts
 /-- A LAYOUT RUNS AS ITS COMMAND LIST (PARTIAL: `CmdsOk` — every command is in the covered subset
 `LCovered` (Proofs/LayoutCmd: the subset C05 covers — notes `a`..`h` with accidental and every
 duration form, `r ^ l o < > Q q C s &` — widened by `D n` and the event commands `[ L`, `] ( )`
-with or without their number, `* @ v p K E M P G t T _ __ k %` with their number), its numbers are `int`s
-accepted by the command, `&` finds its note; this is the only hypothesis beyond "the lines are a
+with or without their number, `* @ v p K E M P G t T _ __ k %` with their number, the reverse rest
+`R` and the grace note `~`), its numbers are `int`s accepted by the command, `&` finds its note,
+`R` / `~` find a long enough event to shorten; this is the only hypothesis beyond "the lines are a
 layout").  From any state, the lines of any layout for the
 distinct tracks `ids` are accepted, every listed track ends — up to source references — as after
 the builder calls of the layout's commands in order (`runCmds`), and no other track changes. -/
